@@ -155,7 +155,9 @@ SCOPE = {
 
 
 # offsets read into named locals, counted on the pinned tree (cmap.rs reads its offsets through records: none)
-OFFSETS = {"C02": 6, "C04": 11, "C05": 14, "C11": 2, "C12": 12, "C13": 1, "C15": 1}
+# only the larger scopes carry a floor (with the usual 10 % tolerance): the rule goes by the names of locals, and a scope with one or two
+# offsets loses its whole count to a rename
+OFFSETS = {"C04": 11, "C05": 14, "C12": 12}
 
 
 def run_for(run, fx, prop, floors=True):
